@@ -85,3 +85,27 @@ def mu(name):
 def site(model, fname, node=None):
     fn = model.funcs[fname] if fname in model.funcs else model.find(fname)
     return f'{fn.path}:{(node or fn.node).lineno} {fn.name}'
+
+
+def calls_to(ctx, short):
+    """trace events for calls to a package function (by bare name) or an external (by name)"""
+    return [e for e in ctx.trace if e['kind'] in ('pkgcall', 'call') and e['name'].rsplit('.', 1)[-1] == short]
+
+
+def effective(model, callee, event, param):
+    """value a call event passes for ``param`` (the callee's default when omitted)"""
+    fn = model.find(callee)
+    b = event.get('bound', {})
+    if param in b:
+        return b[param]
+    if param in fn.defaults:
+        import ast as _ast
+        d = fn.defaults[param]
+        if isinstance(d, _ast.Constant):
+            return T.Cdec(d.value)
+        return ('default', _ast.unparse(d))
+    return ('unbound', param)
+
+
+HEAVY = ('compute_shape_features', 'compute_burst_fraction', 'detect_bursts_amp', 'detect_bursts_cycles', 'drop_samples_df',
+         'compute_amp_fraction', 'compute_amp_consistency', 'compute_period_consistency', 'compute_monotonicity')
